@@ -47,12 +47,24 @@ def run_shard(shard, ctx):
         tag = ("c06", kind, D, R)
         Sig = objs.spd_batch(D, R, vi, seed, tag, diag=diag)
         mu = objs.vec_batch(D, R, vi, seed, tag)
-        which = ("fresh", "sliced_neg", "updated", "Sigma+Lambda", "queried") if (vi == 0 and D <= 3) else ("fresh",)
-        for prep, mkp in objs.pdf_variants(kind, Sig, mu, which=which):
+        which = ("fresh", "sliced_neg", "updated", "Sigma+Lambda", "queried", "conditioned", "prod_linear", "prod_constant") if (vi == 0 and D <= 3) else ("fresh",)
+        for prep, mkp, mu_e, Sig_e in objs.pdf_variants(kind, Sig, mu, which=which):
             with ctx.guard("prepare." + prep, dict(prep=prep)) as g:
                 p = mkp()
             if g.ok:
-                cond_on(ctx, shard, tier, p, kind, D, R, N, vi, mu, Sig, lists, prep)
+                cond_on(ctx, shard, tier, p, kind, D, R, N, vi, mu_e, Sig_e, lists, prep)
+        if vi == 0 and D <= 3:
+            # used, then every component replaced in place, then used again with the same index lists
+            with ctx.guard("prepare.used_then_updated") as g:
+                p = objs.mk_pdf(kind, Sig * 2.0, mu + 1.0)
+                for b_ in lists:
+                    a_ = [d for d in range(D) if d not in b_]
+                    p.condition_on(jnp.array(b_))
+                    p.condition_on_explicit(jnp.array(b_), jnp.array(a_))
+                    p.get_marginal(jnp.array(b_))
+                p.update(jnp.arange(R), objs.mk_pdf(kind, Sig, mu))
+            if g.ok:
+                cond_on(ctx, shard, tier, p, kind, D, R, N, vi, mu, Sig, lists, "used_then_updated")
 
 
 def cond_on(ctx, shard, tier, p, kind, D, R, N, vi, mu, Sig, lists, prep):
